@@ -225,6 +225,9 @@ func runC02(rc *RunCtx) {
 	rc.Cfg("ssc", !opts.DisableSSC)
 	rc.Cfg("faulty", faulty)
 	disk := NewDisk(s)
+	// second scheduling point per storage operation (effect vs. continuation) in a third of the runs
+	disk.PostGate = tp.Pick(3) == 2
+	rc.Cfg("post_gate", disk.PostGate)
 	rec := NewRecorder(s)
 	opts.Logical = map[string]logical.Factory{"rec": RecFactory(rec, false)}
 	opts.Credential = map[string]logical.Factory{"rec": RecFactory(rec, true)}
